@@ -31,6 +31,24 @@ Theorem C13_probe_bounds : forall m plow e now pn e' p,
 Proof. exact (probe_bounds MAX_PROBE_RETRANSMITS BLACK_HOLE_THRESHOLD MPR_side). Qed.
 Print Assumptions C13_probe_bounds.
 
+(** No hypothesis relates [initial_mtu] and [config.upper_bound] (independent public setters,
+    [initial_mtu > upper_bound] is legal): [SearchState::new] clamps the search's upper bound up to
+    the current MTU, and then no probe is issued at all — for every contract configuration.  The
+    contract hypothesis that matters is [minimum_change >= 3] (in [op_ok] of [ONew]): smaller
+    values are accepted by [MtuDiscoveryConfig::minimum_change] and refute probe_bounds and
+    mtu_floor (witnesses below; known finding mtud-minimum-change-below-3). *)
+Theorem C13_no_probe_when_upper_bound_not_above_current : forall m plow e now pn e' r,
+  REACH m plow -> st m = Some e -> Z.min (c_upper (config e)) (peer_max e) <= cur m ->
+  Mtud.enabled_poll MAX_PROBE_RETRANSMITS e now (cur m) pn = Some (e', r) -> r = None.
+Proof. exact (no_probe_when_upper_bound_not_above_current MAX_PROBE_RETRANSMITS BLACK_HOLE_THRESHOLD MPR_side). Qed.
+Print Assumptions C13_no_probe_when_upper_bound_not_above_current.
+
+(** With minimum_change = 0 that clamp makes the probe EXCEED the configured upper bound:
+    initial_mtu 9000, upper_bound 1452 -> a probe of 9000 (= current MTU). *)
+Example C13_minimum_change_0_probe_above_upper_bound_refuted :
+  polls_of 3 3 [ONew 9000 1400 (Some 9000) true (mkConfig 1452 600000000 500 0); OPoll 1000 0] = [0; 9000].
+Proof. vm_compute. reflexivity. Qed.
+
 (** (how [enabled_poll] is the [poll_transmit] operation of the model) *)
 Theorem C13_poll_is_enabled_poll : forall m now pn,
   STEP m (OPoll now pn) =
